@@ -901,6 +901,13 @@ func (em *emitter) emitUnaryOp(expr *ast.UnaryOperator, reg int8, regType reflec
 	// *operand
 	case ast.OperatorPointer:
 		exprReg := em.emitExpr(operand, operandType)
+		if exprReg < 0 {
+			// The operand is an indirect variable, captured by a closure
+			// or whose address is taken: load the pointer it holds.
+			r := em.fb.newRegister(reflect.Pointer)
+			em.changeRegister(false, exprReg, r, operandType, operandType)
+			exprReg = r
+		}
 		if canEmitDirectly(exprType.Kind(), regType.Kind()) {
 			em.changeRegister(false, -exprReg, reg, operandType.Elem(), regType)
 			return
